@@ -187,6 +187,7 @@ type boCell struct {
 	ops       []string // Go operators applied to (L-derived, R-derived) operands, normalised to L-on-the-left
 	cmpConsts []string // for three-way compare shapes: the outcomes accepted
 	dynamic   bool     // delegates to the operand's run-time type: not decidable here
+	impure    []string // operator applied to an adjusted (masked, offset ...) operand
 	pos       token.Pos
 	rets      int
 }
@@ -287,6 +288,9 @@ func summariseBO(tb *tabber, T, R types.Type, tok int64) boCell {
 					return true
 				}
 				sx, sy := sideOf(info, be.X, lc.St), sideOf(info, be.Y, lc.St)
+				if ((sx == "L" && sy == "R") || (sx == "R" && sy == "L")) && arithOps[be.Op.String()] && (impureOperand(info, be.X) || impureOperand(info, be.Y)) {
+					bc.impure = append(bc.impure, exprShape(info, be, lc.St))
+				}
 				switch {
 				case sx == "L" && sy == "R":
 					bc.ops = append(bc.ops, be.Op.String())
@@ -467,6 +471,9 @@ func propC15BinaryOp(c *Ctx, tb *tabber, otypes []types.Type) {
 							bad = append(bad, "applies "+op)
 						}
 					}
+				}
+				for _, im := range bc.impure {
+					bad = append(bad, "operator applied to an adjusted operand: "+im)
 				}
 				c.Check(ro, key, c.L.Pos(bc.pos), len(bad) == 0, "applies "+gop.String(), fmt.Sprintf("token %s: %s (want %s on left, right)", tn, strings.Join(bad, ", "), gop))
 			}
